@@ -162,7 +162,7 @@ def run(res, tier, seed, replay):
             continue
         wkeys = e["witness"].split("\t")[2]
         hit = [r for r in rows if r[0].split("\t")[2] == wkeys]
-        if hit and not hit[0][4]:
+        if hit and not hit[0][4] and hit[0][2] and shares_name(hit[0][7]):   # still fails, with this signature
             res.known.append(f"id={e['id']} {e['text']} | observed now: {pretty_obs(hit[0][1])}")
 
     # coverage
